@@ -52,6 +52,12 @@ structure Cfg where
   startErr : Bool         -- `source.state_dict()` raises in the reader's start-up
   deriving Repr
 
+/-- `source.state_dict()` RAISES when the snapshot after the `p`-th item of this generation is due (`0 < f`, `p % f = 0`,
+`1 ≤ p ≤ src.length`).  In `_populate_queue` the `try` covers `next(source)`, `yielded += 1`, `source.state_dict()` and `_put`
+alike, so the `p`-th item is dropped, an ExceptionWrapper is put with the index `p-1` and the reader returns: for the protocol
+this is the source `src.take (p-1)` ending in an error (the interaction next+state_dict is the single action `rLeave`). -/
+def Cfg.withSnapErr (c : Cfg) (p : Nat) : Cfg := { c with src := c.src.take (p - 1), term := .error }
+
 def Term.pay : Term → Pay
   | .stop => .stop
   | .error => .err
